@@ -27,7 +27,7 @@ var extraRules = map[string][]string{
 	"close-order":                {"C14"},
 	"send-eof-tolerated":         {"C02", "C14", "C15"},
 	"request-spec-set":           {"C12"},
-	"options-order-preserved":    {"C16", "C19"},
+	"options-order-preserved":    {"C12", "C16", "C19"},
 	"gen-comments-via-protogen":  {"C17"},
 	"gen-qualified-idents":       {"C17"},
 	"codec-no-lossy-transform":   {"C02", "C05", "C11", "C18"},
@@ -48,6 +48,18 @@ var extraRules = map[string][]string{
 	"request-started-on-all-exits": {"C14"},
 	"writer-must-pass-through":     {"C01", "C05"},
 	"index-safety":                 {"C06", "C07", "C18"},
+	// round-4 rules and further sharing
+	"merge-into-owned":             {"C02", "C11", "C13", "C19"},
+	"recover-only-in-interceptor":  {"C19", "C07"},
+	"unary-always-decodes":         {"C07", "C01"},
+	"put-error-on-success-checked": {"C08", "C01"},
+	"gen-line-starts-literal":      {"C17"},
+	"unary-error-status":           {"C18"},
+	"chain-concat-order":           {"C12"},
+	"chain-parity":                 {"C12"},
+	"nil-skipped":                  {"C12"},
+	"hb-response-ready":            {"C11"},
+	"eof-compare-is":               {"C02", "C06", "C15"},
 	"wrote-flag-before-write":      {"C02", "C05", "C11"},
 	"response-headers-flushed":     {"C11", "C02"},
 	"pool-hygiene":                 {"C06", "C07"},
